@@ -63,4 +63,8 @@ func init() {
 	pKey := GetTypeKey(syscall.Errno(0))
 	RegisterLeafEncoder(pKey, encodeErrno)
 	RegisterLeafDecoder(pKey, decodeErrno)
+	// An errno that came from a different platform travels further as
+	// an OpaqueErrno: the next process must be able to rebuild it too
+	// (or the errno itself, if it is running on the origin's platform).
+	RegisterLeafDecoder(GetTypeKey(&OpaqueErrno{}), decodeErrno)
 }
